@@ -11,30 +11,38 @@ import Dashu.Model.NT.Gcd
 namespace Dashu.Model.NT
 open Dashu.Model
 
-/-- `highest_word_normalized(x, y)` for `x.len() ≥ y.len() ≥ …`: the leading `W` bits of `x` and
-    the bits of `y` at the same positions -/
+/-- the double word of `y` that lines up with the leading double word of an `lx`-word `x` -/
+def yHighDword (W lx y : Nat) : Nat :=
+  let ly := wordLen W y
+  match lx - ly with
+  | 0 => y / 2 ^ (W * (ly - 2))                               -- highest_dword(y)
+  | 1 => y / 2 ^ (W * (ly - 1))                               -- extend_word(y.last())
+  | _ => 0
+
+/-- `highest_word_normalized(x, y)`: the leading `W` bits of `x` and the bits of `y` at the same positions -/
 def highestWordNormalized (W x y : Nat) : Nat × Nat :=
   let lx := wordLen W x
-  let ly := wordLen W y
   let xhi2 := x / 2 ^ (W * (lx - 2))                          -- highest_dword(x)
-  let yhi2 := match lx - ly with
-    | 0 => y / 2 ^ (W * (ly - 2))                             -- highest_dword(y)
-    | 1 => y / 2 ^ (W * (ly - 1))                             -- extend_word(y.last())
-    | _ => 0
+  let yhi2 := yHighDword W lx y                               -- the `match x.len() - y.len()` of the code
   let shift := 2 * W - bitLen xhi2                            -- x_hi2.leading_zeros()
   ((xhi2 * 2 ^ shift) / 2 ^ W % 2 ^ W, (yhi2 * 2 ^ shift) / 2 ^ W % 2 ^ W)
+
+/-- the three words of `y` that line up with the leading three words of an `lx`-word `x`, as
+    (top word, lower double word): the `match x.len() - y.len()` of `highest_dword_normalized` -/
+def yHighTriple (W lx y : Nat) : Nat × Nat :=
+  let ly := wordLen W y
+  match lx - ly with
+  | 0 => (y / 2 ^ (W * (ly - 1)), y / 2 ^ (W * (ly - 3)) % 2 ^ (2 * W))
+  | 1 => (0, y / 2 ^ (W * (ly - 2)))
+  | 2 => (0, y / 2 ^ (W * (ly - 1)))
+  | _ => (0, 0)
 
 /-- `highest_dword_normalized(x, y)` (`x.len() ≥ 3`): the leading `2W` bits -/
 def highestDwordNormalized (W x y : Nat) : Nat × Nat :=
   let lx := wordLen W x
-  let ly := wordLen W y
   let x0 := x / 2 ^ (W * (lx - 1))                            -- top word
   let x12 := x / 2 ^ (W * (lx - 3)) % 2 ^ (2 * W)             -- highest_dword(x_lo)
-  let (y0, y12) : Nat × Nat := match lx - ly with
-    | 0 => (y / 2 ^ (W * (ly - 1)), y / 2 ^ (W * (ly - 3)) % 2 ^ (2 * W))
-    | 1 => (0, y / 2 ^ (W * (ly - 2)))
-    | 2 => (0, y / 2 ^ (W * (ly - 1)))
-    | _ => (0, 0)
+  let (y0, y12) := yHighTriple W lx y
   let shift := W - bitLen x0                                  -- x0.leading_zeros()
   ((x0 * 2 ^ (shift + W) + x12 / 2 ^ (W - shift)) % 2 ^ (2 * W),
    (y0 * 2 ^ (shift + W) + y12 / 2 ^ (W - shift)) % 2 ^ (2 * W))
@@ -70,8 +78,73 @@ def lehmerGcdLoop (W : Nat) : Nat → Nat → Nat → Except PanicKind Nat
     else if y = 0 then .ok x
     else gcdPrim (x % y) y                                    -- rem_by_word / rem_by_dword, then the primitive gcd
 
-/-- `gcd::gcd_in_place(lhs, rhs)` for `lhs > rhs` (both multi-word) -/
+/-- `gcd::gcd_in_place(lhs, rhs)` for `lhs > rhs` (both multi-word).  The fuel `lhs + rhs + 1` is never
+    exhausted (`Proofs/NT/LehmerComplete`: every iteration decreases `x + y`). -/
 def lehmerGcd (W lhs rhs : Nat) : Except PanicKind Nat :=
-  lehmerGcdLoop W (2 * W * wordLen W lhs + 64) lhs rhs
+  lehmerGcdLoop W (lhs + rhs + 1) lhs rhs
+
+/-- `gcd_large(lhs, rhs)` with the mirrored Lehmer loop -/
+def gcdLargeM (W lhs rhs : Nat) : Except PanicKind Nat :=
+  if lhs = rhs then .ok lhs
+  else if lhs > rhs then lehmerGcd W lhs rhs else lehmerGcd W rhs lhs
+
+/-- `impl Gcd for TypedReprRef` with every kernel mirrored (what the driver runs) -/
+def gcdReprM (W : Nat) (a b : Nat) : Except PanicKind Nat :=
+  let small := fun (x : Nat) => decide (x < 2 ^ (2 * W))
+  match small a, small b with
+  | true, true => gcdPrim a b
+  | true, false => gcdLargeDword b a
+  | false, true => gcdLargeDword a b
+  | false, false => gcdLargeM W a b
+
+/-- main loop of `lehmer::gcd_ext_in_place` on values: besides `(x, y)` it tracks the (unsigned)
+    coefficients `t0, t1` of `rhs` — `x ≡ ∓t0·rhs`, `y ≡ ±t1·rhs (mod lhs)` — and the `swapped` flag that
+    carries the sign; runs while `y` has more than one word -/
+def lehmerExtLoop (W : Nat) : Nat → Nat → Nat → Nat → Nat → Bool →
+    Except PanicKind (Nat × Nat × Nat × Nat × Bool)
+  | 0, _, _, _, _, _ => .error (.undocumented "model: lehmer ext loop out of fuel")
+  | fuel + 1, x, y, t0, t1, sw =>
+    if wordLen W y > 1 then
+      let (a, b, c, d) := lehmerCofactors W x y
+      if b = 0 then
+        -- Euclidean step: (x, y) = (y, x % y); t0 += q·t1; swap
+        lehmerExtLoop W fuel y (x % y) t1 (t0 + x / y * t1) (!sw)
+      else
+        let x' : Int := (a : Int) * x - (b : Int) * y
+        let y' : Int := (d : Int) * y - (c : Int) * x
+        if x' < 0 ∨ y' < 0 then .error (.undocumented "lehmer.rs lehmer_step: negative result (debug_assert on the carry)")
+        else
+          -- lehmer_ext_step: (t0, t1) = (a·t0 + b·t1, c·t0 + d·t1)
+          let t0' := a * t0 + b * t1
+          let t1' := c * t0 + d * t1
+          if x'.toNat ≤ y'.toNat then lehmerExtLoop W fuel y'.toNat x'.toNat t1' t0' (!sw)
+          else lehmerExtLoop W fuel x'.toNat y'.toNat t0' t1' sw
+    else .ok (x, y, t0, t1, sw)
+
+/-- `gcd::gcd_ext_in_place(lhs, rhs)` for `lhs > rhs`: `(g, |b|, b negative?)` with `lhs·a + rhs·b = g`
+    for some `a`; after the loop either `y = 0` or one word is left, which goes through the primitive
+    `gcd_ext` of a word -/
+def lehmerExt (W lhs rhs : Nat) : Except PanicKind (Nat × Nat × Bool) :=
+  match lehmerExtLoop W (lhs + rhs + 1) lhs rhs 0 1 false with
+  | .error k => .error k
+  | .ok (x, y, t0, t1, sw) =>
+    if y = 0 then .ok (x, t0, !sw)                    -- sign: Positive if swapped else Negative
+    else
+      let xw := x % y                                   -- div_by_word_in_place: x := x / y, remainder x_word
+      let t0 := t0 + x / y * t1                         -- add_signed_mul(t0, +, x, t1)
+      match xgcdPrim xw y with
+      | .error k => .error k
+      | .ok (g, cx, cy) =>
+        let sw := sw != (decide (cx < 0) || (decide (cx = 0) && decide (cy > 0)))
+        .ok (g, cx.natAbs * t0 + cy.natAbs * t1, !sw)
+
+/-- the Lehmer kernel as a total function (it never fails, `Proofs/NT/LehmerExt`) -/
+def lehmerExtKernel (W lhs rhs : Nat) : Nat × Nat × Bool :=
+  match lehmerExt W lhs rhs with
+  | .ok v => v
+  | .error _ => (0, 0, false)
+
+/-- `impl_ibig_gcd` (IBig and the mixed UBig/IBig forms): the signs are dropped -/
+def gcdInt (W : Nat) (a b : Int) : Except PanicKind Nat := gcdReprM W a.natAbs b.natAbs
 
 end Dashu.Model.NT
